@@ -85,8 +85,8 @@ structure Acc where
   fdflt : Nat → Name → Name → Nat → GField → Option CV
   parent : Nat → Name → Name → Option (Nat × Name)
 
-def Acc.ofState (σ : St) : Acc where
-  root m n := (alookup (m, n) σ.root).join
+def Acc.ofState (p : GProg) (σ : St) : Acc where
+  root m n := rootIn p σ (.named m n)   -- what `RootTypeSpec` answers (not the stored field: finding D10, repaired)
   cval m n := alookup (m, n) σ.cval
   sdflt m n i _ := alookup (m, n, i) σ.sdflt
   fdflt m s f i _ := alookup (m, s, f, i) σ.fdflt
